@@ -296,6 +296,7 @@ class WebSocket(object):
         """
         if self.is_closed:
             return
+        state = self.state
         try:
             for message in self.stream.feed(data):
                 if isinstance(message, Response):
@@ -342,7 +343,10 @@ class WebSocket(object):
             # The generator has exited prematurely, due to an exception
             # handling the event.
             log.warning('disconnecting websocket')
-            self.on_disconnect()
+            if self.state is state:
+                self.on_disconnect()
+            # Otherwise connect() was called again before this generator
+            # was finalized, and the state belongs to the new connection
 
     def build_request(self):
         """Get the websocket request (in bytes).
